@@ -91,8 +91,17 @@ RoleSets == { <<[name |-> "r1", privs |-> <<"p1">>], [name |-> "r2", privs |-> <
 DocsAsg(lazy) == { Doc("enforce", al, FixedPrivs, TRUE, rs, TRUE, <<IdPlain("i1", "alice"), IdPlain("i2", "bob")>>, TRUE, <<x, y>>, TRUE) :
                      al \in BOOLEAN, rs \in RoleSets, x \in AsgPool2, y \in AsgPool2 }
 
+\* Slice "idcase": identity attributes compare EXACTLY (the statement folds letter case for the rule's and the request's
+\* path and query only): identities and callers whose user / group / process name / executable path differ in case only
+IdCasePool == [name : {"i1"}, user : {NONE, "alice", "Alice"}, group : {NONE, "g2", "G2"}, proc : {NONE, "p", "P"}, exe : {NONE, "/bin/p", "/BIN/P"}]
+CallersCase == { [user |-> u, groups |-> g, proc |-> pr, exe |-> ex] :
+                   u \in {"alice", "Alice", "ALICE"}, g \in {{"g2"}, {"G2"}, {}}, pr \in {"p", "P"}, ex \in {"/bin/p", "/BIN/P"} }
+DocsIdCase(lazy) == { Doc("enforce", al, FixedPrivs, TRUE, <<RoleR1(<<"p1">>)>>, TRUE, <<i>>, TRUE, <<Asg1>>, TRUE) :
+                        al \in BOOLEAN, i \in IdCasePool }
+
 Universe ==
-  CASE Slice = "match" -> DocsMatch(0) \X Callers \X Urls
+  CASE Slice = "idcase" -> DocsIdCase(0) \X CallersCase \X [path : {P_a, P_root}, q : {Q0}]
+    [] Slice = "match" -> DocsMatch(0) \X Callers \X Urls
     [] Slice = "grant" -> DocsGrant(0) \X CallersGrant \X UrlsGrant
     [] Slice = "asg"   -> DocsAsg(0) \X CallersGrant \X [path : {P_a, P_c, P_root}, q : {Q0}]
     [] Slice = "dup"   -> DocsDup(0) \X Callers \X [path : {P_a, P_c, P_ab, P_root}, q : {Q0}]
